@@ -74,9 +74,13 @@ HavocNames(op, sc) ==
 Havocked(sc, names, hv) == [nm \in DOMAIN sc |-> IF nm \in names /\ nm \in DOMAIN hv THEN hv[nm] ELSE sc[nm]]
 
 \* outcomes of the instruction at st.loc: set of [sc, mem]
+\* scalars a call never changes in this export (C17: the stack pointer, which the analysis -
+\* like the calling conventions - assumes preserved across calls)
+Frozen(q) == IF "frozen" \in DOMAIN PP[q] THEN { PP[q].frozen[i] : i \in 1..Len(PP[q].frozen) } ELSE {}
+
 ExecX(q, op, sc, mem) ==
   IF op.k \in {"branch", "intrinsic"}
-  THEN { [sc |-> Havocked(sc, HavocNames(op, sc), ScOf(PP[q].havocs[h])), mem |-> mem] : h \in 1..Len(PP[q].havocs) }
+  THEN { [sc |-> Havocked(sc, HavocNames(op, sc) \ Frozen(q), ScOf(PP[q].havocs[h])), mem |-> mem] : h \in 1..Len(PP[q].havocs) }
   ELSE { [sc |-> r.sc, mem |-> r.mem] : r \in { r \in ExecOp(op, sc, mem, PP[q].big) : r.k = "ft" } }
 
 \* successors of state s of program q (faulting executions have none)
